@@ -170,6 +170,30 @@ fn rebind_queries(doc: &crate::xp::Doc, q: &J) -> J {
     J::Array(obs)
 }
 
+/// add_ns(e, u) ; the query once (whatever a context resolves, it resolves now) ; remove_ns(e) ; the query again
+fn unbind_queries(doc: &crate::xp::Doc, q: &J) -> J {
+    let pre = cps_to_string(&q["binds"][0][0]);
+    let uri = cps_to_string(&q["binds"][0][1]);
+    let mut obs = vec![];
+    for e in q["exprs"].as_array().cloned().unwrap_or_default() {
+        let expr = cps_to_string(&e);
+        let (p2, u2, d2) = (pre.clone(), uri.clone(), doc.dom.clone());
+        let r = guarded(move || {
+            let mut ctx = xml_xpath::eval::model::Context::default();
+            ctx.add_ns(Some(p2.as_str()), u2.as_str());
+            let _ = xml_xpath::query(d2.clone(), &expr, &mut ctx);
+            ctx.remove_ns(Some(p2.as_str()));
+            xml_xpath::query(d2, &expr, &mut ctx).map_err(|e| e.to_string())
+        });
+        obs.push(match r {
+            Ok(Ok(v)) => crate::xp::value_json(doc, &v),
+            Ok(Err(e)) => json!({"t": "err", "msg": e}),
+            Err(p) => json!({"t": "panic", "msg": p}),
+        });
+    }
+    J::Array(obs)
+}
+
 fn run_queries(doc: &crate::xp::Doc, qs: &J) -> J {
     let mut out = vec![];
     for q in qs.as_array().cloned().unwrap_or_default() {
@@ -204,6 +228,7 @@ fn run(args: &[String]) -> i32 {
                 ev["elems"] = observe_elems(&doc);
                 ev["queries"] = run_queries(&doc, &c["queries"]);
                 ev["rebind"] = rebind_queries(&doc, &c["queries"][0]);
+                ev["unbind"] = unbind_queries(&doc, &c["queries"][0]);
                 ev["edits"] = edits(&text);
             }
             Err(_) => {
@@ -212,6 +237,7 @@ fn run(args: &[String]) -> i32 {
                 ev["elems"] = json!([]);
                 ev["queries"] = json!([]);
                 ev["rebind"] = json!([]);
+                ev["unbind"] = json!([]);
                 ev["edits"] = json!([]);
             }
         }
@@ -272,6 +298,18 @@ fn run(args: &[String]) -> i32 {
                 if o["t"] != "nodes" || (!is_ns && o["v"] != exp["v"]) || (is_ns && o["v"].as_array().map(|v| v.len()) != exp["v"].as_array().map(|v| v.len())) {
                     ok = false;
                 }
+            }
+            for (k, exp) in c["nobind"].as_array().cloned().unwrap_or_default().iter().enumerate() {
+                let o = &ev["unbind"][k];
+                let is_ns = o["v"].as_array().map(|v| v.iter().any(|x| x.as_i64() == Some(-1))).unwrap_or(false);
+                let same = if exp["t"] == "err" { o["t"] == "err" }
+                           else { o["t"] == "nodes" && ((!is_ns && o["v"] == exp["v"]) || (is_ns && o["v"].as_array().map(|v| v.len()) == exp["v"].as_array().map(|v| v.len()))) };
+                if !same {
+                    ok = false;
+                }
+            }
+            if c["nobind"].as_array().map(|a| a.len()).unwrap_or(0) == 0 {
+                ok = false;
             }
             for ed in ev["edits"].as_array().cloned().unwrap_or_default() {
                 if ed["live"] != ed["re"] {
